@@ -288,9 +288,12 @@ def ldsem_fidelity(L, info, driver, script):
     n = 0
     # the hypothesis of the whole-script theorems (Props/Final.lean, C04.final_rom_symbols): the script assigns each
     # ROM symbol of an emitted segment once
+    # ... and of C03.final_vram_end / final_follows_segment / final_default_placement / final_vram_start: each VRAM start and
+    # end symbol of an emitted segment is assigned once and each header `.<segment>` occurs once
     twice = set(ans.get("assigned_twice", []))
-    rom = {s[k] for s in emitted(info) for k in ("rom_start", "rom_end")}
-    driver.last_final_hyp = "assigned-once" if not (twice & rom) else "assigned-twice"
+    rom = {s[k] for s in emitted(info) for k in ("rom_start", "rom_end", "vram", "vram_end")}
+    hdr2 = set(ans.get("headers_twice", [])) & {"." + s["name"] for s in emitted(info)}
+    driver.last_final_hyp = ("assigned-once" if not (twice & rom) else "assigned-twice") + ("" if not hdr2 else "+header-twice")
     for name, v in ans["syms"].items():
         if name in FIXED_SYMS or name == ".":
             continue
